@@ -1,7 +1,7 @@
 #!/bin/sh
 # Differential self-test of the translator: the functions of src/t/t.go (one per construct of the subset) are run
 # natively (src/main.go + src/t/run.go) and as translated Lean (go2lean output + eval.lean, evaluated by `lean`);
-# the two transcripts must be identical.  Not part of any check; run it after changing go2lean.
+# the two transcripts must be identical; the packages of src/refuse (one aliasing / out-of-subset construct each) must be refused.  Not part of any check; run it after changing go2lean.
 set -e
 export GOFLAGS=-mod=mod GOPROXY=off GOSUMDB=off GOTOOLCHAIN=local CGO_ENABLED=0
 here=$(cd "$(dirname "$0")" && pwd)
@@ -12,8 +12,17 @@ trap 'rm -rf "$tmp"' EXIT
 cat "$tmp/Gen.lean" "$here/eval.lean" > "$tmp/Selftest.lean"
 (cd "$here/src" && go run . > "$tmp/go.txt")
 (cd /verif/lean && lake env lean "$tmp/Selftest.lean" > "$tmp/lean.txt") || { cat "$tmp/lean.txt"; echo "selftest: the translated file does not compile"; exit 1; }
+# refusals: every package under src/refuse must be REJECTED (exit 1, no file) with the message its first line wants
+for d in "$here"/src/refuse/*/; do
+  n=$(basename "$d"); want=$(sed -n '1s,^// want: ,,p' "$d/x.go")
+  if "$tmp/go2lean" -repo "$here/src" -pkg "refuse/$n" -files x.go -ns Selftest.R -out "$tmp/refuse-$n.lean" > "$tmp/refuse.txt" 2>&1 \
+     || [ -e "$tmp/refuse-$n.lean" ]; then :; fi
+  if [ -e "$tmp/refuse-$n.lean" ] || ! grep -q "unsupported: .*$want" "$tmp/refuse.txt"; then
+    cat "$tmp/refuse.txt"; echo "selftest: refuse/$n was not refused with '$want'"; exit 1
+  fi
+done
 if diff "$tmp/go.txt" "$tmp/lean.txt" > "$tmp/diff.txt"; then
-  echo "selftest: OK ($(wc -l < "$tmp/go.txt") results identical)"
+  echo "selftest: OK ($(wc -l < "$tmp/go.txt") results identical, $(ls "$here/src/refuse" | wc -l) refusals)"
 else
   head -20 "$tmp/diff.txt"; echo "selftest: Go and translated Lean DISAGREE"; exit 1
 fi
